@@ -6,6 +6,8 @@ requests (one line, space separated):
   round <dec> <ninv> <info>×ninv <nnon> <info>×nnon <nst> (<uri> <A|P:hex>)×nst <table>…
   splice <S|L|1|2|3|4> <maxGid> <datahex> <noffs> <off>×noffs <nrepl> (<gid> <hex>)×nrepl
   gvar  <maxGid> <gvarhex|none> <n> (<wide 0|1> <decoded payload hex>)×n     → ok <digest of new gvar> | err …
+  cff   <v2 0|1> <maxGid> <IFT hex|none> <CFF/CFF2 hex|none> <n> (<wide 0|1> <decoded payload hex>)×n
+                                                                          → ok <digest of new table> | err …
 where
   <dec>   = n | <k>:<Init|Stream|Dict|Max|Excess|Io>   scripted decoder: identity (base ++ stream when a
             base is given), MaxSizeExceeded if longer than maxLen, fault on call k
@@ -18,6 +20,7 @@ responses
 -/
 import FontVerif.Model.PatchRound
 import FontVerif.Model.GvarKeyed
+import FontVerif.Model.CffKeyed
 namespace FontVerif.Drv.C18
 open FontVerif FontVerif.Ift
 
@@ -186,6 +189,20 @@ def handle (cmd : String) (args : List String) : Option String :=
       match gvarPatch gv gps mg with
       | .ok out => some s!"ok {digest out}"
       | .error e => some s!"err {perrStr e}"
+  | "cff", v :: mg :: i :: c :: n :: rest => do
+    let v2 ← (if v = "1" then some true else if v = "0" then some false else none)
+    let mg ← mg.toNat?
+    let ift ← (if i = "none" then some none else (parseHex? i).map some)
+    let tb ← (if c = "none" then some none else (parseHex? c).map some)
+    let n ← n.toNat?
+    let (ps, tail) ← takePayloads n rest
+    if !tail.isEmpty then none else
+    match allOk ps with
+    | .error e => some s!"err {perrStr (.patchParsingFailed e)}"
+    | .ok gps =>
+      match cffPatch v2 ift tb gps mg with
+      | .ok out => some s!"ok {digest out}"
+      | .error e => some s!"err {perrStr e}"
   | "tk", d :: i :: p :: font => do
     let dec ← parseDec d
     let info ← parseInfo i
@@ -234,7 +251,8 @@ def handle (cmd : String) (args : List String) : Option String :=
         | .shortDivByTwo | .long => [.shortDivByTwo, .long]
         | _ => [.cffOne, .cffTwo, .cffThree, .cffFour]
       let a : OffsetArray := { offsetType := t, available := avail, offsets := offs, data := data,
-                               missing := .internalError, getErr := .fontParsingFailed .outOfBounds }
+                               missing := .internalError, getErr := .fontParsingFailed .outOfBounds,
+                               ascOk := ascending offs, unreadable := [] }
       match patchOffsetArray a repl mg with
       | .ok (t', nd, no) => some s!"ok {repr t'} {digest nd} {digest no}"
       | .error e => some s!"err {perrStr e}"
